@@ -30,7 +30,10 @@ var _ dials.Source = (*Source)(nil)
 // unchanged.)
 func (e *Source) Value(_ context.Context, t *dials.Type) (reflect.Value, error) {
 	// flatten the nested fields
-	flattenMangler := transform.NewFlattenMangler(common.DialsTagName, caseconversion.EncodeUpperCamelCase, caseconversion.EncodeUpperCamelCase)
+	// (the tags along a field's path are joined with underscores rather than
+	// camel-cased so no word boundary is lost before they're decoded below,
+	// e.g. "hostID" + "ID" must not become "HostIDId")
+	flattenMangler := transform.NewFlattenMangler(common.DialsTagName, caseconversion.EncodeUpperCamelCase, caseconversion.EncodeCasePreservingSnakeCase)
 	// reformat the tags so they are SCREAMING_SNAKE_CASE
 	reformatTagMangler := tagformat.NewTagReformattingMangler(common.DialsTagName, caseconversion.DecodeGoTags, caseconversion.EncodeUpperSnakeCase)
 	// copy tags from "dials" to "dialsenv" tag
